@@ -23,11 +23,6 @@ theorem CEq.trans {a b c : List Nat} (h : CEq a b) (h' : CEq b c) : CEq a c := f
 
 theorem CEq.perm {a b : List Nat} (h : CEq a b) : a.Perm b := List.perm_iff_count.mpr h
 
-/-- `simp` set that turns a `CEq` goal into linear arithmetic over `count` atoms -/
-macro "ceq" : tactic =>
-  `(tactic| (intro i; simp only [List.count_append, List.count_cons, List.count_nil, List.append_assoc, List.nil_append,
-      List.append_nil, List.cons_append, beq_iff_eq] <;> (try split) <;> (try split) <;> (try split) <;> omega))
-
 @[simp] theorem toL_none : toL none = [] := rfl
 @[simp] theorem toL_some (i : Nat) : toL (some i) = [i] := rfl
 @[simp] theorem optIds_nil : optIds [] = [] := rfl
@@ -35,6 +30,12 @@ macro "ceq" : tactic =>
   simp [optIds, List.flatMap_cons]
 @[simp] theorem optIds_append (a b : List (Option Nat)) : optIds (a ++ b) = optIds a ++ optIds b := by
   simp [optIds, List.flatMap_append]
+
+/-- turns a `CEq` goal into linear arithmetic over `count` atoms -/
+macro "ceq" : tactic =>
+  `(tactic| (intro i; simp only [List.count_append, List.count_cons, List.count_nil, List.append_assoc, List.nil_append,
+      List.append_nil, List.cons_append, beq_iff_eq, optIds_cons, optIds_append, optIds_nil, toL_none, toL_some]
+      <;> (try split) <;> (try split) <;> (try split) <;> omega))
 
 theorem count_optIds_setO (l : List (Option Nat)) (s : Nat) (v : Option Nat) (i : Nat) :
     (optIds (setO l s v)).count i + (toL (getO l s)).count i = (optIds l).count i + (toL v).count i := by
@@ -58,6 +59,31 @@ theorem getO_setO_same (l : List (Option Nat)) (s : Nat) (v : Option Nat) : getO
     cases s with
     | zero => simp [setO, getO]
     | succ k => simpa [setO, getO] using ih k
+
+
+theorem getO_setO_other (l : List (Option Nat)) (s t : Nat) (v : Option Nat) (h : s ≠ t) :
+    getO (setO l s v) t = getO l t := by
+  induction l generalizing s t with
+  | nil =>
+    induction s generalizing t with
+    | zero =>
+      cases t with
+      | zero => exact absurd rfl h
+      | succ k => simp [setO, getO]
+    | succ k ih =>
+      cases t with
+      | zero => simp [setO, getO]
+      | succ m => simpa [setO, getO] using ih m (by omega)
+  | cons x r ih =>
+    cases s with
+    | zero =>
+      cases t with
+      | zero => exact absurd rfl h
+      | succ k => simp [setO, getO]
+    | succ k =>
+      cases t with
+      | zero => simp [setO, getO]
+      | succ m => simpa [setO, getO] using ih k m (by omega)
 
 theorem count_optIds_reverse (l : List (Option Nat)) (i : Nat) : (optIds l.reverse).count i = (optIds l).count i := by
   induction l with
@@ -184,5 +210,493 @@ theorem spec_freeOpts (l : List (Option Nat)) : Spec (freeOpts l) (optIds l) (fu
 theorem spec_freeOptsRev (l : List (Option Nat)) : Spec (freeOptsRev l) (optIds l) (fun _ => []) := by
   unfold freeOptsRev
   exact Spec.conseq (spec_freeOpts l.reverse) (fun i => (count_optIds_reverse l i).symm) (fun _ _ => rfl)
+
+/-! ## `lzma_index` -/
+
+@[simp] theorem ixIds_none : ixIds none = [] := rfl
+@[simp] theorem ixIds_some (i : Index) : ixIds (some i) = i.ids := rfl
+
+variable (S : Sizes)
+
+theorem spec_indexInit : Spec (indexInit S) [] (fun r => ixIds r) := by
+  unfold indexInit
+  refine Spec.bind (spec_alloc _) (fun r => ?_)
+  cases r with
+  | none => exact Spec.pure (by intro i; rfl)
+  | some b =>
+    refine Spec.bind (mid := fun r2 => toL r2 ++ [b]) (Spec.frame [b] (spec_alloc _) (by ceq) (by intro _; ceq)) (fun r2 => ?_)
+    cases r2 with
+    | none =>
+      refine Spec.bind (mid := fun _ => []) (Spec.conseq (spec_free1 b) (by ceq) (by intro _; ceq)) (fun _ => ?_)
+      exact Spec.pure (by intro i; rfl)
+    | some s => exact Spec.pure (by simp [Index.ids]; ceq)
+
+theorem spec_indexEnd (x : Option Index) : Spec (indexEnd x) (ixIds x) (fun _ => []) := by
+  cases x with
+  | none => exact Spec.pure (by intro i; rfl)
+  | some i =>
+    unfold indexEnd
+    refine Spec.bind (mid := fun _ => [i.id]) (Spec.frame [i.id] (spec_freeSet _) (by simp [Index.ids]; ceq) (by intro _; ceq)) (fun _ => ?_)
+    exact spec_free1 i.id
+
+theorem spec_indexAppend (i : Index) : Spec (indexAppend S i) i.ids (fun r => r.2.ids) := by
+  unfold indexAppend
+  split
+  · exact Spec.pure (by simp [Index.ids]; ceq)
+  · refine Spec.bind (mid := fun r => toL r ++ i.ids) (Spec.frame i.ids (spec_alloc _) (by ceq) (by intro _; ceq)) (fun r => ?_)
+    cases r with
+    | none => exact Spec.pure (by ceq)
+    | some g => exact Spec.pure (by simp [Index.ids]; ceq)
+
+theorem spec_indexAppendN (n : Nat) (i : Index) : Spec (indexAppendN S n i) i.ids (fun r => r.2.ids) := by
+  induction n generalizing i with
+  | zero => exact Spec.pure (by ceq)
+  | succ k ih =>
+    unfold indexAppendN
+    refine Spec.bind (spec_indexAppend S i) (fun r => ?_)
+    obtain ⟨ret, i'⟩ := r
+    simp only
+    split
+    · exact Spec.pure (by ceq)
+    · exact ih i'
+
+theorem pure_bind' {α β : Type} (a : α) (k : α → M β) : (pure a >>= k : M β) = k a := rfl
+
+theorem spec_indexCat (d s : Index) :
+    Spec (indexCat S d s) (d.ids ++ s.ids) CatRes.ids := by
+  unfold indexCat
+  simp only []
+  generalize hsh : (d.lastG.isSome && decide (d.lastUsed < d.lastAlloc)) = shrink
+  cases shrink with
+  | false =>
+    simp only [Bool.false_and, Bool.false_eq_true, if_false, pure_bind']
+    refine Spec.bind (mid := fun _ => d.ids ++ s.others ++ toL s.lastG)
+      (Spec.frame (d.ids ++ s.others ++ toL s.lastG) (spec_free1 s.id) (by simp [Index.ids]; ceq) (by intro _; ceq)) (fun _ => ?_)
+    exact Spec.pure (by simp [Index.ids, CatRes.ids]; ceq)
+  | true =>
+    simp only [Bool.true_and, if_true]
+    refine Spec.bind (mid := fun r => toL r ++ (d.ids ++ s.ids)) (Spec.frame (d.ids ++ s.ids) (spec_alloc _) (by ceq) (by intro _; ceq)) (fun r => ?_)
+    cases r with
+    | none => simp; exact Spec.pure (by simp [CatRes.ids]; ceq)
+    | some g =>
+      simp
+      refine Spec.bind (mid := fun _ => g :: d.id :: d.others ++ s.ids)
+        (Spec.frame (g :: d.id :: d.others ++ s.ids) (spec_free d.lastG) (by simp [Index.ids]; ceq) (by intro _; ceq)) (fun _ => ?_)
+      refine Spec.bind (mid := fun _ => g :: d.id :: d.others ++ s.others ++ toL s.lastG)
+        (Spec.frame (g :: d.id :: d.others ++ s.others ++ toL s.lastG) (spec_free1 s.id) (by simp [Index.ids]; ceq) (by intro _; ceq)) (fun _ => ?_)
+      exact Spec.pure (by simp [Index.ids, CatRes.ids]; ceq)
+
+def dupPost (b : Nat) : Option (List Nat × Option Nat) → List Nat
+  | none => []
+  | some (acc, g) => b :: (toL g ++ acc)
+
+theorem spec_indexDupLoop (b : Nat) (recs acc : List Nat) (lastG : Option Nat) :
+    Spec (indexDupLoop S b recs acc lastG) (b :: (toL lastG ++ acc)) (dupPost b) := by
+  induction recs generalizing acc lastG with
+  | nil => exact Spec.pure (by simp [dupPost]; ceq)
+  | cons r rest ih =>
+    unfold indexDupLoop
+    refine Spec.bind (mid := fun x => toL x ++ (b :: (toL lastG ++ acc)))
+      (Spec.frame (b :: (toL lastG ++ acc)) (spec_alloc _) (by ceq) (by intro _; ceq)) (fun x => ?_)
+    cases x with
+    | none =>
+      simp only []
+      refine Spec.bind (mid := fun _ => [b]) (Spec.frame [b] (spec_freeSet _) (by ceq) (by intro _; ceq)) (fun _ => ?_)
+      refine Spec.bind (mid := fun _ => []) (spec_free1 b) (fun _ => ?_)
+      exact Spec.pure (by simp [dupPost]; ceq)
+    | some st =>
+      simp only []
+      split
+      · exact Spec.conseq (ih (toL lastG ++ st :: acc) none) (by ceq) (by intro _; ceq)
+      · refine Spec.bind (mid := fun y => toL y ++ (st :: b :: (toL lastG ++ acc)))
+          (Spec.frame (st :: b :: (toL lastG ++ acc)) (spec_alloc _) (by ceq) (by intro _; ceq)) (fun y => ?_)
+        cases y with
+        | none =>
+          simp only []
+          refine Spec.bind (mid := fun _ => b :: (toL lastG ++ acc))
+            (Spec.frame (b :: (toL lastG ++ acc)) (spec_free1 st) (by ceq) (by intro _; ceq)) (fun _ => ?_)
+          refine Spec.bind (mid := fun _ => [b]) (Spec.frame [b] (spec_freeSet _) (by ceq) (by intro _; ceq)) (fun _ => ?_)
+          refine Spec.bind (mid := fun _ => []) (spec_free1 b) (fun _ => ?_)
+          exact Spec.pure (by simp [dupPost]; ceq)
+        | some g =>
+          simp only []
+          exact Spec.conseq (ih (toL lastG ++ st :: acc) (some g)) (by ceq) (by intro _; ceq)
+
+theorem spec_indexDup (src : Index) : Spec (indexDup S src) [] (fun r => ixIds r) := by
+  unfold indexDup
+  refine Spec.bind (spec_alloc _) (fun r => ?_)
+  cases r with
+  | none => exact Spec.pure (by intro i; rfl)
+  | some b =>
+    simp only []
+    refine Spec.bind (mid := dupPost b) (Spec.conseq (spec_indexDupLoop S b src.recs [] none) (by ceq) (by intro _; ceq)) (fun r => ?_)
+    cases r with
+    | none => exact Spec.pure (by simp [dupPost]; ceq)
+    | some p =>
+      obtain ⟨acc, g⟩ := p
+      exact Spec.pure (by simp [dupPost, Index.ids]; ceq)
+
+/-! ## option arrays -/
+
+def optPost : Option (List (Option Nat)) → List Nat
+  | none => []
+  | some l => optIds l
+
+theorem spec_allocOpts (rev : Bool) (sizes acc : List (Option Nat)) :
+    Spec (allocOpts rev sizes acc) (optIds acc) optPost := by
+  induction sizes generalizing acc with
+  | nil => exact Spec.pure (by simp [optPost]; ceq)
+  | cons x t ih =>
+    cases x with
+    | none =>
+      unfold allocOpts
+      exact Spec.conseq (ih (acc ++ [none])) (by ceq) (by intro _; ceq)
+    | some sz =>
+      unfold allocOpts
+      refine Spec.bind (mid := fun r => toL r ++ optIds acc) (Spec.frame (optIds acc) (spec_alloc _) (by ceq) (by intro _; ceq)) (fun r => ?_)
+      cases r with
+      | none =>
+        simp only []
+        refine Spec.bind (mid := fun _ => []) ?_ (fun _ => Spec.pure (by simp [optPost]; ceq))
+        cases rev with
+        | true => simpa using spec_freeOptsRev acc
+        | false => simpa using spec_freeOpts acc
+      | some p =>
+        simp only []
+        exact Spec.conseq (ih (acc ++ [some p])) (by ceq) (by intro _; ceq)
+
+theorem spec_filtersCopy (sizes : List (Option Nat)) : Spec (filtersCopy sizes) [] optPost :=
+  Spec.conseq (spec_allocOpts true sizes []) (by ceq) (by intro _; ceq)
+
+theorem spec_allocFreeList (l : List (Option Nat)) : Spec (allocFreeList l) [] (fun _ => []) := by
+  unfold allocFreeList
+  refine Spec.bind (mid := optPost) (Spec.conseq (spec_allocOpts false l []) (by ceq) (by intro _; ceq)) (fun r => ?_)
+  cases r with
+  | none => exact Spec.pure (by simp [optPost]; ceq)
+  | some tmp =>
+    simp only []
+    refine Spec.bind (mid := fun _ => []) (Spec.conseq (spec_freeOpts tmp) (by simp [optPost]; ceq) (by intro _; ceq)) (fun _ => ?_)
+    exact Spec.pure (by ceq)
+
+/-! ## `lzma_next_coder` trees -/
+
+def Safe (op : NodeOp) : Prop := ∀ n, Spec (op n) n.ids (fun r => r.2.ids)
+
+@[simp] theorem ids_null (i : Nat) : (Node.null i).ids = [] := rfl
+theorem ids_mk (i self : Nat) (bufs : List (Option Nat)) (data : List Nat) (opts : List (Option Nat))
+    (ix0 ix1 : Option Index) (s0 s1 : Node) :
+    (Node.mk i self bufs data opts ix0 ix1 s0 s1).ids
+      = self :: (optIds bufs ++ optIds opts ++ ixIds ix0 ++ ixIds ix1 ++ s0.ids ++ s1.ids) := rfl
+
+/-- like `ceq`, with two extra facts about `setO` -/
+macro "ceqw" t:term : tactic =>
+  `(tactic| (intro i; have hw_ := $t i; simp only [ids_mk, ids_null, List.count_append, List.count_cons, List.count_nil,
+      List.append_assoc, List.nil_append, List.append_nil, List.cons_append, beq_iff_eq, optIds_cons, optIds_append,
+      optIds_nil, toL_none, toL_some, ixIds_none, ixIds_some] at hw_ ⊢ <;> (try split at hw_) <;> (try split) <;> (try split) <;> omega))
+
+macro "ceqn" : tactic =>
+  `(tactic| (intro i; simp only [ids_mk, ids_null, List.count_append, List.count_cons, List.count_nil,
+      List.append_assoc, List.nil_append, List.append_nil, List.cons_append, beq_iff_eq, optIds_cons, optIds_append,
+      optIds_nil, toL_none, toL_some, ixIds_none, ixIds_some] <;> (try split) <;> (try split) <;> (try split) <;> omega))
+
+theorem spec_endNode (n : Node) : Spec (endNode n) n.ids (fun _ => []) := by
+  induction n with
+  | null i => exact Spec.pure (by ceqn)
+  | mk i self bufs data opts ix0 ix1 s0 s1 ih0 ih1 =>
+    unfold endNode
+    refine Spec.bind (mid := fun _ => self :: (optIds bufs ++ optIds opts ++ ixIds ix0 ++ ixIds ix1 ++ s1.ids))
+      (Spec.frame (self :: (optIds bufs ++ optIds opts ++ ixIds ix0 ++ ixIds ix1 ++ s1.ids)) ih0 (by ceqn) (by intro _; ceqn)) (fun _ => ?_)
+    refine Spec.bind (mid := fun _ => self :: (optIds bufs ++ optIds opts ++ ixIds ix0 ++ ixIds ix1))
+      (Spec.frame (self :: (optIds bufs ++ optIds opts ++ ixIds ix0 ++ ixIds ix1)) ih1 (by ceqn) (by intro _; ceqn)) (fun _ => ?_)
+    refine Spec.bind (mid := fun _ => self :: (optIds opts ++ ixIds ix0 ++ ixIds ix1))
+      (Spec.frame (self :: (optIds opts ++ ixIds ix0 ++ ixIds ix1)) (spec_freeOpts bufs) (by ceqn) (by intro _; ceqn)) (fun _ => ?_)
+    refine Spec.bind (mid := fun _ => self :: (optIds opts ++ ixIds ix1))
+      (Spec.frame (self :: (optIds opts ++ ixIds ix1)) (spec_indexEnd ix0) (by ceqn) (by intro _; ceqn)) (fun _ => ?_)
+    refine Spec.bind (mid := fun _ => self :: (optIds opts))
+      (Spec.frame (self :: (optIds opts)) (spec_indexEnd ix1) (by ceqn) (by intro _; ceqn)) (fun _ => ?_)
+    refine Spec.bind (mid := fun _ => [self])
+      (Spec.frame [self] (spec_freeOpts opts) (by ceqn) (by intro _; ceqn)) (fun _ => ?_)
+    exact spec_free1 self
+
+theorem safe_skip : Safe skip := fun n => Spec.pure (by ceqn)
+
+theorem safe_seq {a b : NodeOp} (ha : Safe a) (hb : Safe b) : Safe (a ⨟ b) := by
+  intro n
+  unfold seq
+  refine Spec.bind (ha n) (fun r => ?_)
+  split
+  · exact Spec.pure (by ceqn)
+  · exact hb r.2
+
+theorem safe_ite (c : Node → Bool) {a b : NodeOp} (ha : Safe a) (hb : Safe b) :
+    Safe (fun n => if c n then a n else b n) := by
+  intro n
+  simp only []
+  split
+  · exact ha n
+  · exact hb n
+
+theorem safe_nextEnd : Safe nextEnd := by
+  intro n
+  unfold nextEnd
+  refine Spec.bind (mid := fun _ => []) (spec_endNode n) (fun _ => ?_)
+  exact Spec.pure (by ceqn)
+
+theorem safe_guard (i : Nat) : Safe (guard i) := by
+  intro n
+  unfold guard
+  split
+  · refine Spec.bind (mid := fun _ => []) (spec_endNode n) (fun _ => ?_)
+    exact Spec.pure (by ceqn)
+  · exact Spec.pure (by ceqn)
+
+theorem safe_allocSelf (sz : Nat) {fresh : NodeOp} (hf : Safe fresh) : Safe (allocSelf sz fresh) := by
+  intro n
+  cases n with
+  | null i =>
+    unfold allocSelf
+    refine Spec.bind (mid := fun r => toL r) (Spec.conseq (spec_alloc _) (by ceqn) (by intro _; ceqn)) (fun r => ?_)
+    cases r with
+    | none => exact Spec.pure (by ceqn)
+    | some p => exact Spec.conseq (hf _) (by ceqn) (by intro _; ceqn)
+  | mk i self bufs data opts ix0 ix1 s0 s1 => exact Spec.pure (by ceqn)
+
+theorem ids_setDat (n : Node) (i v : Nat) : (n.setDat i v).ids = n.ids := by
+  cases n <;> rfl
+
+theorem safe_setData (i v : Nat) : Safe (setData i v) := by
+  intro n
+  unfold setData
+  exact Spec.pure (by simp [ids_setDat]; ceqn)
+
+theorem safe_whenD (c : Node → Bool) {op : NodeOp} (h : Safe op) : Safe (whenD c op) := by
+  intro n
+  unfold whenD
+  split
+  · exact h n
+  · exact Spec.pure (by ceqn)
+
+theorem safe_freeBuf (slot : Nat) : Safe (freeBuf slot) := by
+  intro n
+  cases n with
+  | null i => exact Spec.pure (by ceqn)
+  | mk i self bufs data opts ix0 ix1 s0 s1 =>
+    unfold freeBuf
+    refine Spec.bind (mid := fun _ => (Node.mk i self (setO bufs slot none) data opts ix0 ix1 s0 s1).ids)
+      (Spec.frame (Node.mk i self (setO bufs slot none) data opts ix0 ix1 s0 s1).ids (spec_free _)
+        (by ceqw (count_optIds_setO bufs slot none)) (by intro _; ceqn)) (fun _ => ?_)
+    exact Spec.pure (by ceqn)
+
+theorem safe_reallocBuf (slot : Nat) (sz : Option Nat) (fd : Option (Nat × Nat)) : Safe (reallocBuf slot sz fd) := by
+  intro n
+  cases n with
+  | null i => exact Spec.pure (by ceqn)
+  | mk i self bufs data opts ix0 ix1 s0 s1 =>
+    unfold reallocBuf
+    refine Spec.bind (mid := fun _ => (Node.mk i self (setO bufs slot none) data opts ix0 ix1 s0 s1).ids)
+      (Spec.frame (Node.mk i self (setO bufs slot none) data opts ix0 ix1 s0 s1).ids (spec_free _)
+        (by ceqw (count_optIds_setO bufs slot none)) (by intro _; ceqn)) (fun _ => ?_)
+    refine Spec.bind (mid := fun r => toL r ++ (Node.mk i self (setO bufs slot none) data opts ix0 ix1 s0 s1).ids)
+      (Spec.frame (Node.mk i self (setO bufs slot none) data opts ix0 ix1 s0 s1).ids (spec_alloc _) (by ceqn) (by intro _; ceqn)) (fun r => ?_)
+    cases r with
+    | none => exact Spec.pure (by ceqn)
+    | some p =>
+      have h1 := count_optIds_setO bufs slot none
+      have h2 := count_optIds_setO bufs slot (some p)
+      exact Spec.pure (by
+        intro j; have := h1 j; have := h2 j
+        simp only [ids_mk, List.count_append, List.count_cons, List.count_nil, List.append_assoc, List.nil_append,
+          List.cons_append, beq_iff_eq, toL_none, toL_some] at *
+        omega)
+
+theorem safe_ensureBuf (slot : Nat) (sz : Option Nat) : Safe (ensureBuf slot sz) := by
+  intro n
+  unfold ensureBuf
+  split
+  · exact Spec.pure (by ceqn)
+  · exact safe_reallocBuf slot sz none n
+
+theorem safe_onSub0 {op : NodeOp} (h : Safe op) : Safe (onSub0 op) := by
+  intro n
+  cases n with
+  | null i => exact Spec.pure (by ceqn)
+  | mk i self bufs data opts ix0 ix1 s0 s1 =>
+    unfold onSub0
+    refine Spec.bind (mid := fun r => r.2.ids ++ (self :: (optIds bufs ++ optIds opts ++ ixIds ix0 ++ ixIds ix1 ++ s1.ids)))
+      (Spec.frame (self :: (optIds bufs ++ optIds opts ++ ixIds ix0 ++ ixIds ix1 ++ s1.ids)) (h s0) (by ceqn) (by intro _; ceqn)) (fun r => ?_)
+    exact Spec.pure (by ceqn)
+
+theorem safe_onSub1 {op : NodeOp} (h : Safe op) : Safe (onSub1 op) := by
+  intro n
+  cases n with
+  | null i => exact Spec.pure (by ceqn)
+  | mk i self bufs data opts ix0 ix1 s0 s1 =>
+    unfold onSub1
+    refine Spec.bind (mid := fun r => r.2.ids ++ (self :: (optIds bufs ++ optIds opts ++ ixIds ix0 ++ ixIds ix1 ++ s0.ids)))
+      (Spec.frame (self :: (optIds bufs ++ optIds opts ++ ixIds ix0 ++ ixIds ix1 ++ s0.ids)) (h s1) (by ceqn) (by intro _; ceqn)) (fun r => ?_)
+    exact Spec.pure (by ceqn)
+
+theorem safe_allocPair (s1 s2 : Nat) (z1 z2 : Option Nat) (h12 : s1 ≠ s2) : Safe (allocPair s1 s2 z1 z2) := by
+  intro n
+  cases n with
+  | null i => exact Spec.pure (by ceqn)
+  | mk i self bufs data opts ix0 ix1 a b =>
+    unfold allocPair
+    have e1 := count_optIds_setO bufs s1 none
+    have e2 := count_optIds_setO (setO bufs s1 none) s2 none
+    refine Spec.bind (mid := fun _ => (Node.mk i self (setO bufs s1 none) data opts ix0 ix1 a b).ids)
+      (Spec.frame (Node.mk i self (setO bufs s1 none) data opts ix0 ix1 a b).ids (spec_free _)
+        (by ceqw e1) (by intro _; ceqn)) (fun _ => ?_)
+    refine Spec.bind (mid := fun _ => (Node.mk i self (setO (setO bufs s1 none) s2 none) data opts ix0 ix1 a b).ids)
+      (Spec.frame (Node.mk i self (setO (setO bufs s1 none) s2 none) data opts ix0 ix1 a b).ids (spec_free _)
+        (by ceqw e2) (by intro _; ceqn)) (fun _ => ?_)
+    simp only []
+    generalize hb0 : setO (setO bufs s1 none) s2 none = bufs0
+    refine Spec.bind (mid := fun p => toL p ++ (Node.mk i self bufs0 data opts ix0 ix1 a b).ids)
+      (Spec.frame (Node.mk i self bufs0 data opts ix0 ix1 a b).ids (spec_alloc _) (by ceqn) (by intro _; ceqn)) (fun p => ?_)
+    refine Spec.bind (mid := fun q => toL q ++ (toL p ++ (Node.mk i self bufs0 data opts ix0 ix1 a b).ids))
+      (Spec.frame (toL p ++ (Node.mk i self bufs0 data opts ix0 ix1 a b).ids) (spec_alloc _) (by ceqn) (by intro _; ceqn)) (fun q => ?_)
+    split
+    · refine Spec.bind (mid := fun _ => toL q ++ (Node.mk i self bufs0 data opts ix0 ix1 a b).ids)
+        (Spec.frame (toL q ++ (Node.mk i self bufs0 data opts ix0 ix1 a b).ids) (spec_free p) (by ceqn) (by intro _; ceqn)) (fun _ => ?_)
+      refine Spec.bind (mid := fun _ => (Node.mk i self bufs0 data opts ix0 ix1 a b).ids)
+        (Spec.frame ((Node.mk i self bufs0 data opts ix0 ix1 a b).ids) (spec_free q) (by ceqn) (by intro _; ceqn)) (fun _ => ?_)
+      exact Spec.pure (by ceqn)
+    · -- both slots of bufs0 are empty, so filling them adds exactly p and q
+      have f1 := count_optIds_setO bufs0 s1 p
+      have f2 := count_optIds_setO (setO bufs0 s1 p) s2 q
+      have hs2 : getO bufs0 s2 = none := by rw [← hb0]; exact getO_setO_same _ _ _
+      have hs1 : getO bufs0 s1 = none := by
+        rw [← hb0, getO_setO_other _ _ _ _ (Ne.symm h12)]
+        exact getO_setO_same _ _ _
+      have hs2' : getO (setO bufs0 s1 p) s2 = none := by
+        rw [getO_setO_other _ _ _ _ h12]; exact hs2
+      exact Spec.pure (by
+        intro j
+        have := f1 j; have := f2 j
+        simp only [hs1, hs2', ids_mk, List.count_append, List.count_cons, List.count_nil, List.append_assoc, List.nil_append,
+          List.cons_append, toL_none] at *
+        omega)
+
+theorem safe_ixFree (slot : Nat) : Safe (ixFree slot) := by
+  intro n
+  cases n with
+  | null i => exact Spec.pure (by ceqn)
+  | mk i self bufs data opts ix0 ix1 s0 s1 =>
+    simp only [ixFree]
+    split
+    · refine Spec.bind (mid := fun _ => (Node.mk i self bufs data opts none ix1 s0 s1).ids)
+        (Spec.frame (Node.mk i self bufs data opts none ix1 s0 s1).ids (spec_indexEnd ix0) (by ceqn) (by intro _; ceqn)) (fun _ => ?_)
+      exact Spec.pure (by ceqn)
+    · refine Spec.bind (mid := fun _ => (Node.mk i self bufs data opts ix0 none s0 s1).ids)
+        (Spec.frame (Node.mk i self bufs data opts ix0 none s0 s1).ids (spec_indexEnd ix1) (by ceqn) (by intro _; ceqn)) (fun _ => ?_)
+      exact Spec.pure (by ceqn)
+
+theorem safe_ixReinit0 : Safe (ixReinit0 S) := by
+  intro n
+  cases n with
+  | null i => exact Spec.pure (by ceqn)
+  | mk i self bufs data opts ix0 ix1 s0 s1 =>
+    simp only [ixReinit0]
+    refine Spec.bind (mid := fun _ => (Node.mk i self bufs data opts none ix1 s0 s1).ids)
+      (Spec.frame (Node.mk i self bufs data opts none ix1 s0 s1).ids (spec_indexEnd ix0) (by ceqn) (by intro _; ceqn)) (fun _ => ?_)
+    refine Spec.bind (mid := fun r => ixIds r ++ (Node.mk i self bufs data opts none ix1 s0 s1).ids)
+      (Spec.frame (Node.mk i self bufs data opts none ix1 s0 s1).ids (spec_indexInit S) (by ceqn) (by intro _; ceqn)) (fun r => ?_)
+    cases r with
+    | none => exact Spec.pure (by ceqn)
+    | some x => exact Spec.pure (by ceqn)
+
+theorem safe_ixAppend0 (cnt : Nat) : Safe (ixAppend0 S cnt) := by
+  intro n
+  unfold ixAppend0
+  split
+  · rename_i i self bufs data opts x ix1 s0 s1
+    refine Spec.bind (mid := fun r => r.2.ids ++ (Node.mk i self bufs data opts none ix1 s0 s1).ids)
+      (Spec.frame (Node.mk i self bufs data opts none ix1 s0 s1).ids (spec_indexAppendN S cnt x) (by ceqn) (by intro _; ceqn)) (fun r => ?_)
+    exact Spec.pure (by ceqn)
+  · exact Spec.pure (by ceqn)
+
+theorem safe_ixSetPrealloc0 (p : Nat) : Safe (ixSetPrealloc0 p) := by
+  intro n
+  unfold ixSetPrealloc0
+  split
+  · exact Spec.pure (by simp [ids_mk, Index.ids]; ceqn)
+  · exact Spec.pure (by ceqn)
+
+theorem safe_withTempOpts (sizes : List (Option Nat)) {body : NodeOp} (hb : Safe body) : Safe (withTempOpts sizes body) := by
+  intro n
+  unfold withTempOpts
+  refine Spec.bind (mid := fun r => optPost r ++ n.ids)
+    (Spec.frame n.ids (spec_allocOpts false sizes []) (by ceqn) (by intro _; ceqn)) (fun r => ?_)
+  cases r with
+  | none => exact Spec.pure (by simp [optPost]; ceqn)
+  | some tmp =>
+    simp only []
+    refine Spec.bind (mid := fun r => r.2.ids ++ optIds tmp)
+      (Spec.frame (optIds tmp) (hb n) (by simp [optPost]; ceqn) (by intro _; ceqn)) (fun r => ?_)
+    refine Spec.bind (mid := fun _ => r.2.ids)
+      (Spec.frame r.2.ids (spec_freeOpts tmp) (by ceqn) (by intro _; ceqn)) (fun _ => ?_)
+    exact Spec.pure (by ceqn)
+
+theorem safe_replaceOpts (sizes : List (Option Nat)) {body : NodeOp} (hb : Safe body) : Safe (replaceOpts sizes body) := by
+  intro n
+  unfold replaceOpts
+  refine Spec.bind (mid := fun r => optPost r ++ n.ids)
+    (Spec.frame n.ids (spec_filtersCopy sizes) (by ceqn) (by intro _; ceqn)) (fun r => ?_)
+  cases r with
+  | none => exact Spec.pure (by simp [optPost]; ceqn)
+  | some tmp =>
+    simp only []
+    refine Spec.bind (mid := fun r => r.2.ids ++ optIds tmp)
+      (Spec.frame (optIds tmp) (hb n) (by simp [optPost]; ceqn) (by intro _; ceqn)) (fun r => ?_)
+    split
+    · refine Spec.bind (mid := fun _ => r.2.ids)
+        (Spec.frame r.2.ids (spec_freeOpts tmp) (by ceqn) (by intro _; ceqn)) (fun _ => ?_)
+      exact Spec.pure (by ceqn)
+    · obtain ⟨ret, n'⟩ := r
+      cases n' with
+      | null i =>
+        simp only []
+        refine Spec.bind (mid := fun _ => [])
+          (Spec.conseq (spec_freeOpts tmp) (by ceqn) (by intro _; ceqn)) (fun _ => ?_)
+        exact Spec.pure (by ceqn)
+      | mk i self bufs data opts ix0 ix1 s0 s1 =>
+        simp only []
+        refine Spec.bind (mid := fun _ => (Node.mk i self bufs data tmp ix0 ix1 s0 s1).ids)
+          (Spec.frame (Node.mk i self bufs data tmp ix0 ix1 s0 s1).ids (spec_freeOpts opts) (by ceqn) (by intro _; ceqn)) (fun _ => ?_)
+        exact Spec.pure (by ceqn)
+
+theorem safe_repeatOp (k : Nat) {op : NodeOp} (h : Safe op) : Safe (repeatOp k op) := by
+  induction k with
+  | zero => exact safe_skip
+  | succ m ih => exact safe_seq h ih
+
+theorem safe_fiTakeThis : Safe fiTakeThis := by
+  intro n
+  unfold fiTakeThis
+  split
+  · exact Spec.pure (by ceqn)
+  · exact Spec.pure (by ceqn)
+
+theorem safe_idecSelf : Safe (idecSelf S) := by
+  intro n
+  unfold idecSelf
+  split
+  · exact safe_allocSelf _ safe_skip n
+  · exact safe_ixFree 0 n
+
+theorem safe_fiCombine : Safe (fiCombine S) := by
+  intro n
+  unfold fiCombine
+  split
+  · exact Spec.pure (by ceqn)
+  · rename_i i self bufs data opts t c s0 s1
+    refine Spec.bind (mid := fun r => r.ids ++ (Node.mk i self bufs data opts none none s0 s1).ids)
+      (Spec.frame (Node.mk i self bufs data opts none none s0 s1).ids (spec_indexCat S t c) (by ceqn) (by intro _; ceqn)) (fun r => ?_)
+    cases r with
+    | ok d => exact Spec.pure (by simp [CatRes.ids]; ceqn)
+    | fail e d c' => exact Spec.pure (by simp [CatRes.ids]; ceqn)
+  · exact Spec.pure (by ceqn)
+
 
 end XzVerif.Alloc
